@@ -298,7 +298,8 @@ func TestC08Timeout(t *testing.T) {
 		script := filepath.Join(dir, "sensor.sh")
 		os.WriteFile(filepath.Join(dir, "val"), []byte("50000\n"), 0644)
 		os.WriteFile(filepath.Join(dir, "hang"), []byte("0"), 0644)
-		os.WriteFile(script, []byte("#!/bin/sh\nif [ \"$(cat "+dir+"/hang)\" = 1 ]; then sleep 6; fi\ncat "+dir+"/val\n"), 0755)
+		os.Remove(filepath.Join(dir, "hanging"))
+		os.WriteFile(script, []byte("#!/bin/sh\nif [ \"$(cat "+dir+"/hang)\" = 1 ]; then echo x > "+dir+"/hanging; sleep 6; fi\ncat "+dir+"/val\n"), 0755)
 		configuration.CurrentConfig.Sensors = []configuration.SensorConfig{{ID: "hang", Cmd: &configuration.CmdSensorConfig{Exec: script}}}
 		os.Setenv("FAN2GO_VERIF_HWMON_ROOT", filepath.Join(dir, "none"))
 		freshPrometheus()
@@ -311,14 +312,23 @@ func TestC08Timeout(t *testing.T) {
 		go func() { done <- internal.NewSensorMonitor(s, 100*time.Millisecond).Run(ctx) }()
 		time.Sleep(700 * time.Millisecond)
 		os.WriteFile(filepath.Join(dir, "hang"), []byte("1"), 0644)
-		time.Sleep(600 * time.Millisecond) // a poll already in flight finishes; every later one hangs
+		// polls are sequential: once a hanging command has started, every earlier poll has finished
+		for i := 0; i < 200; i++ {
+			if _, err := os.Stat(filepath.Join(dir, "hanging")); err == nil {
+				break
+			}
+			time.Sleep(50 * time.Millisecond)
+		}
 		a1 := s.GetMovingAvg()
 		time.Sleep(3 * time.Second)
 		a2 := s.GetMovingAvg()
 		os.WriteFile(filepath.Join(dir, "val"), []byte("70000\n"), 0644)
 		os.WriteFile(filepath.Join(dir, "hang"), []byte("0"), 0644)
-		time.Sleep(3500 * time.Millisecond)
-		a3 := s.GetMovingAvg()
+		a3 := a2
+		for i := 0; i < 300 && !(a3 > a2); i++ { // up to 15 s: slowness only delays, it never fails the case
+			time.Sleep(50 * time.Millisecond)
+			a3 = s.GetMovingAvg()
+		}
 		cancel()
 		select {
 		case <-done:
@@ -329,7 +339,7 @@ func TestC08Timeout(t *testing.T) {
 			vs = append(vs, sim.Violation{Key: "timed-out-read-changes-average", Msg: fmt.Sprintf("window %d: smoothed value moved %v -> %v while the sensor command was hanging", window, a1, a2)})
 		}
 		if !(a3 > a2) {
-			vs = append(vs, sim.Violation{Key: "monitor-stuck-after-timeout", Msg: fmt.Sprintf("window %d: smoothed value still %v 3.5 s after the command recovered (reading 70000)", window, a3)})
+			vs = append(vs, sim.Violation{Key: "monitor-stuck-after-timeout", Msg: fmt.Sprintf("window %d: smoothed value still %v 15 s after the command recovered (reading 70000)", window, a3)})
 		}
 		sc := map[string]any{"window": window, "beforeHang": a1, "afterHang": a2, "afterRecovery": a3}
 		st.CaseH(fmt.Sprintf("timeout-%d", window), sc, true, "kind:cmd", "fault:timeout")
